@@ -143,6 +143,7 @@ let show_res (fl : flags) (r : value res) : string =
 (* the switches in the order in which they are put back; names are the known-finding tags (prefix "xpath-") *)
 let switches : (string * (flags -> flags)) list = [
   ("skip-alldesc-axis", (fun f -> { f with f_skip = false }));
+  ("assert-text-hash", (fun f -> { f with f_texthash = false }));
   ("alldesc-duplicate", (fun f -> { f with f_alldup = false }));
   ("assert-step-on-non-nodeset", (fun f -> { f with f_nonset = false }));
   ("assert-attribute-node", (fun f -> { f with f_attrnode = false }));
